@@ -327,3 +327,5 @@ def run(rep, prog, thorough):
     check_registry(rep, prog, runs)
     check_one_shot_iterators(rep, prog, runs)
     check_dir_loops(rep, prog)
+    from ..effects import check_no_memoised
+    check_no_memoised(rep, prog, 'C19.R3.shared-state-writes', None, 'a decode returns what an earlier decode computed for equal arguments')
